@@ -119,7 +119,8 @@ def normalize (_s : Schema) (x : Snap) : Option Snap :=
   | some path =>
     if !hasExtension path then none
     else if 8 < x.hotCues.length ∨ 8 < x.loops.length then none
-    else if !labelsOk HotCue.label x.hotCues ∨ !labelsOk LoopV.label x.loops then none
+    else if !labelsOk HotCue.label x.hotCues then none
+    else if !labelsOk LoopV.label x.loops then none
     else
       match normWaveform x.waveform x.sampleCount x.sampleRate with
       | none => none
